@@ -380,7 +380,7 @@ def gen_run(seed, params):
                     model._split(lf)
             ops.append({'op': 'uniform', 'order_seed': oseed})
         else:
-            l = rng.choice([0, 1, 1, 2, 2, 3, 3, 4, 5, 6, 8, 10])
+            l = rng.choice([0, 1, 1, 2, 2, 3, 3, 4, 4, 5, 6, 7, 8, 9, 10])
             ops.append({
                 'op': 'target',
                 'piece': rng.randrange(n_pieces),
